@@ -38,6 +38,9 @@ pub enum Kind {
     /// the transport reports a connection timeout on a read of THIS stream only: nothing but h3's own wake-up
     /// tells the driver
     StreamTimeout,
+    /// the transport adapter reports an internal error on a read of THIS stream only (h3 may close the
+    /// connection with H3_INTERNAL_ERROR; everybody must still report the same error)
+    StreamInternal,
 }
 
 #[derive(Clone, Debug)]
@@ -46,6 +49,10 @@ pub struct Case {
     pub kinds: Vec<Kind>,
     /// the peer's control stream is finished: the driver detects H3_CLOSED_CRITICAL_STREAM itself
     pub driver_self: bool,
+    /// the driver task polls once, waits for a wake-up, the peer goes away, and the application then calls
+    /// shutdown(0) on the connection object (whose GOAWAY write fails with a connection-level error) before
+    /// it goes on polling: shutdown must report the connection's single outcome too
+    pub shutdown: bool,
 }
 
 #[derive(Debug, Clone, Default, PartialEq, Eq)]
@@ -123,7 +130,7 @@ fn poison(kind: Kind) -> (Vec<u8>, bool) {
         Kind::FrameUnexpected => (rf::frame(rf::SETTINGS, &[]), false),
         Kind::FrameError => (vec![0x01, 0x05, 0x00], true),
         Kind::Qpack => (rf::frame(rf::HEADERS, &[0xff, 0xff]), true),
-        Kind::RemoteClose | Kind::DropSender | Kind::StreamTimeout => (vec![], false),
+        Kind::RemoteClose | Kind::DropSender | Kind::StreamTimeout | Kind::StreamInternal => (vec![], false),
     }
 }
 
@@ -157,6 +164,14 @@ async fn stream_action(s: &mut AnyStream, kind: Kind, net: &Net, me: Endpoint) -
             AnyStream::Cli(s) => s.id().into_inner(),
         };
         net.raw_stream_read_conn_err(side, id, simnet::ConnErr::Timeout);
+    }
+    if kind == Kind::StreamInternal {
+        let side = if me == Endpoint::Server { SERVER } else { CLIENT };
+        let id = match s {
+            AnyStream::Srv(s) => s.id().into_inner(),
+            AnyStream::Cli(s) => s.id().into_inner(),
+        };
+        net.raw_stream_read_conn_err(side, id, simnet::ConnErr::Internal);
     }
     macro_rules! go {
         ($s:expr) => {{
@@ -311,9 +326,51 @@ pub fn execute(case: &Case) -> Outcome {
     let mut actors: Vec<Actor> = Vec::new();
     {
         let (res, back) = (drv_results.clone(), returned_driver.clone());
+        let (shutdown_mode, net_d) = (case.shutdown, net.clone());
         actors.push(Box::new(move |h: Handle| {
             WAKER.with(|w| *w.borrow_mut() = None); // pooled thread: forget the previous run's waker
             let mut driver = driver;
+            if shutdown_mode {
+                let pending = {
+                    let waker = thread_waker(&h);
+                    let mut cx = Context::from_waker(&waker);
+                    match &mut driver {
+                        Driver::Srv(conn) => {
+                            let mut f = Box::pin(conn.accept());
+                            match f.as_mut().poll(&mut cx) {
+                                Poll::Ready(r) => {
+                                    res.lock().unwrap().push(match r {
+                                        Ok(Some(_)) => "req".to_string(),
+                                        Ok(None) => "none".to_string(),
+                                        Err(e) => conn_class(&e),
+                                    });
+                                    false
+                                }
+                                Poll::Pending => true,
+                            }
+                        }
+                        Driver::Cli(conn) => match conn.poll_close(&mut cx) {
+                            Poll::Ready(e) => {
+                                res.lock().unwrap().push(conn_class(&e));
+                                false
+                            }
+                            Poll::Pending => true,
+                        },
+                    }
+                };
+                if pending {
+                    h.park();
+                }
+                net_d.raw_close(peer, REMOTE_CODE);
+                let r = match &mut driver {
+                    Driver::Srv(conn) => block_on(&h, conn.shutdown(0)),
+                    Driver::Cli(conn) => block_on(&h, conn.shutdown(0)),
+                };
+                res.lock().unwrap().push(match r {
+                    Ok(()) => "shutdown-ok".to_string(),
+                    Err(e) => conn_class(&e),
+                });
+            }
             for _ in 0..3 {
                 let r = match &mut driver {
                     Driver::Srv(conn) => block_on(&h, async {
@@ -388,7 +445,7 @@ fn conn_errors_in(results: &[String]) -> Vec<String> {
 
 pub fn judge(case: &Case, o: &Outcome) -> Vec<(String, String)> {
     let role = if case.me == Endpoint::Server { "server" } else { "client" };
-    let ctx = format!("{role}: stream threads raise {:?}, driver detects its own error: {}", case.kinds, case.driver_self);
+    let ctx = format!("{role}: stream threads raise {:?}, driver detects its own error: {}, application calls shutdown() after the peer went away: {}", case.kinds, case.driver_self, case.shutdown);
     let mut out = Vec::new();
     if o.setup != "ok" {
         out.push((format!("C05:{role}:harness-setup-failed"), format!("{ctx}: {}", o.setup)));
@@ -415,7 +472,7 @@ pub fn judge(case: &Case, o: &Outcome) -> Vec<(String, String)> {
     }
     // (1)(3)(4) one winner everywhere
     let mut all: Vec<String> = Vec::new();
-    all.extend(o.driver.iter().filter(|d| *d != "req" && *d != "none").cloned());
+    all.extend(o.driver.iter().filter(|d| *d != "req" && *d != "none" && *d != "shutdown-ok").cloned());
     for s in &o.streams {
         all.extend(conn_errors_in(s));
     }
@@ -431,7 +488,8 @@ pub fn judge(case: &Case, o: &Outcome) -> Vec<(String, String)> {
             format!("{ctx}: connection errors reported: {distinct:?}; driver {:?}, stream threads {:?}, later calls {:?}", o.driver, o.streams, o.later),
         ));
     }
-    if o.driver.len() != 3 || o.driver.iter().any(|d| d == "req" || d == "none") {
+    let polled: Vec<&String> = o.driver.iter().filter(|d| *d != "shutdown-ok").collect();
+    if polled.len() < 3 || polled.len() > 5 || o.driver.iter().any(|d| d == "req" || d == "none") {
         out.push((format!("C05:{role}:driver-does-not-report-the-error"), format!("{ctx}: driver results {:?}", o.driver)));
     }
     // every stream thread that raised a connection error reports a connection error
@@ -450,6 +508,11 @@ pub fn judge(case: &Case, o: &Outcome) -> Vec<(String, String)> {
                         format!("{ctx}: winner {w}; close calls {:x?}", o.close_calls),
                     ));
                 }
+            } else if w == "Remote(Internal)" {
+                // a failure of the transport adapter: h3 may (and does) close with H3_INTERNAL_ERROR; not demanded
+                if !o.close_calls.is_empty() && o.close_calls != [0x102] {
+                    out.push((format!("C05:{role}:close-calls-do-not-match-the-winner:wrong-code"), format!("{ctx}: winner {w}; close calls {:x?}", o.close_calls)));
+                }
             } else if !o.close_calls.is_empty() {
                 out.push((format!("C05:{role}:closed-although-the-error-came-from-the-transport"), format!("{ctx}: winner {w}; close calls {:x?}", o.close_calls)));
             }
@@ -465,6 +528,7 @@ fn kind_from(s: &str) -> Kind {
         "Qpack" => Kind::Qpack,
         "RemoteClose" => Kind::RemoteClose,
         "StreamTimeout" => Kind::StreamTimeout,
+        "StreamInternal" => Kind::StreamInternal,
         _ => Kind::DropSender,
     }
 }
@@ -472,24 +536,27 @@ fn kind_from(s: &str) -> Kind {
 pub fn cases(thorough: bool) -> Vec<Case> {
     let mut out = Vec::new();
     for me in [Endpoint::Server, Endpoint::Client] {
-        let mut kinds = vec![Kind::FrameUnexpected, Kind::FrameError, Kind::Qpack, Kind::RemoteClose, Kind::StreamTimeout];
+        let mut kinds = vec![Kind::FrameUnexpected, Kind::FrameError, Kind::Qpack, Kind::RemoteClose, Kind::StreamTimeout, Kind::StreamInternal];
         if me == Endpoint::Client {
             kinds.push(Kind::DropSender);
         }
         for driver_self in [false, true] {
             for &a in &kinds {
-                out.push(Case { me, kinds: vec![a], driver_self });
+                out.push(Case { me, kinds: vec![a], driver_self, shutdown: false });
+                if !driver_self && !matches!(a, Kind::DropSender) {
+                    out.push(Case { me, kinds: vec![a], driver_self, shutdown: true });
+                }
             }
             for (i, &a) in kinds.iter().enumerate() {
                 for &b in &kinds[i + 1..] {
-                    out.push(Case { me, kinds: vec![a, b], driver_self });
+                    out.push(Case { me, kinds: vec![a, b], driver_self, shutdown: false });
                 }
             }
             if thorough || !driver_self {
                 for (i, &a) in kinds.iter().enumerate() {
                     for (j, &b) in kinds.iter().enumerate().skip(i + 1) {
                         for &c in &kinds[j + 1..] {
-                            out.push(Case { me, kinds: vec![a, b, c], driver_self });
+                            out.push(Case { me, kinds: vec![a, b, c], driver_self, shutdown: false });
                         }
                     }
                 }
@@ -507,7 +574,7 @@ pub fn run(args: &Args) -> i32 {
     let (b2, b3) = if thorough { (usize::MAX, 5) } else { (5, 3) };
     let b2s = if b2 == usize::MAX { "unbounded".to_string() } else { b2.to_string() };
     rep.rule = format!(
-        "actors on real OS threads under a baton scheduler: one driver thread (server: accept(); client: poll_close(); parks while pending, woken through h3's AtomicWaker) and 1..3 stream threads, each performing the API calls that raise one connection error (SETTINGS on a request stream -> H3_FRAME_UNEXPECTED; frame cut off by FIN -> H3_FRAME_ERROR; undecodable trailers -> QPACK_DECOMPRESSION_FAILED; peer application close 0x1234 surfacing on a read; a connection timeout that the transport reports on a read of this stream only; client: last SendRequest dropped -> H3_NO_ERROR), every subset of kinds, with and without an error the driver detects itself (peer control stream finished). Pre-emption points = every ConnectionState accessor (get_conn_error, set_conn_error, waker, set_closing, is_closing, settings, set_settings) via the verif-hooks callback. ALL interleavings for 2 threads; pre-emption bound {b2s} for 3 threads and {b3} for 4. After each run: later calls (recv_data, send_data, finish) on every handle, the driver is called three times. Oracle: one distinct connection error over all reports; close() exactly once with its code iff locally detected; driver never parked forever. states = distinct (schedule trace, observation) fingerprints; non-trivial = executions with at least one pre-emption."
+        "actors on real OS threads under a baton scheduler: one driver thread (server: accept(); client: poll_close(); parks while pending, woken through h3's AtomicWaker) and 1..3 stream threads, each performing the API calls that raise one connection error (SETTINGS on a request stream -> H3_FRAME_UNEXPECTED; frame cut off by FIN -> H3_FRAME_ERROR; undecodable trailers -> QPACK_DECOMPRESSION_FAILED; peer application close 0x1234 surfacing on a read; a connection timeout / an internal adapter error that the transport reports on a read of this stream only; a driver that calls shutdown() after the peer went away; client: last SendRequest dropped -> H3_NO_ERROR), every subset of kinds, with and without an error the driver detects itself (peer control stream finished). Pre-emption points = every ConnectionState accessor (get_conn_error, set_conn_error, waker, set_closing, is_closing, settings, set_settings) via the verif-hooks callback. ALL interleavings for 2 threads; pre-emption bound {b2s} for 3 threads and {b3} for 4. After each run: later calls (recv_data, send_data, finish) on every handle, the driver is called three times. Oracle: one distinct connection error over all reports; close() exactly once with its code iff locally detected; driver never parked forever. states = distinct (schedule trace, observation) fingerprints; non-trivial = executions with at least one pre-emption."
     );
     rep.assumptions = vec![
         "OnceLock and AtomicWaker::{register,wake} are atomic operations (their documented contracts); interleavings are sequentially consistent (Relaxed vs SeqCst on the closing flag is not modelled)".into(),
@@ -555,7 +622,7 @@ pub fn run(args: &Args) -> i32 {
         for k in 0..nontrivial.min(200_000) {
             acc.nontrivial.insert(h.wrapping_add(k));
         }
-        viol.drain_into(acc, |choices| json!({"me": if case.me == Endpoint::Server {"server"} else {"client"}, "kinds": case.kinds.iter().map(|k| format!("{k:?}")).collect::<Vec<_>>(), "driver_self": case.driver_self, "choices": choices}));
+        viol.drain_into(acc, |choices| json!({"me": if case.me == Endpoint::Server {"server"} else {"client"}, "kinds": case.kinds.iter().map(|k| format!("{k:?}")).collect::<Vec<_>>(), "driver_self": case.driver_self, "shutdown": case.shutdown, "choices": choices}));
     });
     let mut total = Acc::new();
     for a in accs {
@@ -573,6 +640,7 @@ pub fn replay(r: &Value) -> i32 {
         me: if r["me"] == "server" { Endpoint::Server } else { Endpoint::Client },
         kinds: r["kinds"].as_array().unwrap().iter().map(|k| kind_from(k.as_str().unwrap())).collect(),
         driver_self: r["driver_self"].as_bool().unwrap(),
+        shutdown: r["shutdown"].as_bool().unwrap_or(false),
     };
     let choices: Vec<u32> = r["choices"].as_array().unwrap().iter().map(|v| v.as_u64().unwrap() as u32).collect();
     println!("case: {case:?} schedule {choices:?}");
